@@ -556,6 +556,37 @@ impl<'a> Tr<'a> {
                 }
                 ("len", 0) => Ok(Val { s: format!("(Z.of_nat (length {}))", recv.s), ty: Ty::int(IntTy::Usize) }),
                 ("last", 0) => Ok(Val { s: format!("(Casts.slice_last {})", recv.s), ty: Ty::Option(elem.clone()) }),
+                // `str.chars()`: the iterator is the part of the string not yet passed
+                ("chars", 0) if *elem == Ty::Int(Some(IntTy::U32)) => Ok(Val { s: recv.s.clone(), ty: Ty::Iter(elem.clone()) }),
+                // consumers of a list of items (the value of an `impl Iterator` function, `slice.iter()`)
+                ("iter", 0) | ("into_iter", 0) | ("copied", 0) | ("cloned", 0) => Ok(recv),
+                ("any", 1) | ("all", 1) => {
+                    let (p, b) = self.closure1(args[0], &elem, env, Some(&Ty::Bool))?;
+                    if b.ty != Ty::Bool {
+                        return Err(unsupported(at, "closure that does not return bool"));
+                    }
+                    Ok(Val { s: format!("({} (fun x_ => let '{} := x_ in {}) {})", if name == "any" { "existsb" } else { "forallb" }, p, b.s, recv.s), ty: Ty::Bool })
+                }
+                ("enumerate", 0) => Ok(Val { s: format!("(Casts.enumerate {})", recv.s), ty: Ty::Slice(Box::new(Ty::Tuple(vec![Ty::int(IntTy::Usize), (*elem).clone()]))) }),
+                ("find", 1) => {
+                    let (p, b) = self.closure1(args[0], &elem, env, Some(&Ty::Bool))?;
+                    if b.ty != Ty::Bool {
+                        return Err(unsupported(at, "closure that does not return bool"));
+                    }
+                    Ok(Val { s: format!("(List.find (fun x_ => let '{} := x_ in {}) {})", p, b.s, recv.s), ty: Ty::Option(elem.clone()) })
+                }
+                ("count", 0) => Ok(Val { s: format!("(Z.of_nat (length {}))", recv.s), ty: Ty::int(IntTy::Usize) }),
+                // `str::split(char)` / `strip_suffix(char)` on the list of chars
+                ("split", 1) if *elem == Ty::Int(Some(IntTy::U32)) => {
+                    let c = self.pure(args[0], env, Some(&elem))?;
+                    join(&c.ty, &elem).map_err(|m| unsupported(at, &format!("`split` with a pattern that is not a char: {}", m)))?;
+                    Ok(Val { s: format!("(Casts.split_char {} {})", c.s, recv.s), ty: Ty::Slice(Box::new(recv.ty.clone())) })
+                }
+                ("strip_suffix", 1) if *elem == Ty::Int(Some(IntTy::U32)) => {
+                    let c = self.pure(args[0], env, Some(&elem))?;
+                    join(&c.ty, &elem).map_err(|m| unsupported(at, &format!("`strip_suffix` with a pattern that is not a char: {}", m)))?;
+                    Ok(Val { s: format!("(Casts.strip_suffix_char {} {})", c.s, recv.s), ty: Ty::Option(Box::new(recv.ty.clone())) })
+                }
                 ("first", 0) => Ok(Val { s: format!("(List.hd_error {})", recv.s), ty: Ty::Option(elem.clone()) }),
                 ("windows", 1) if matches!(strip_parens(args[0]), Expr::Lit(ExprLit { lit: Lit::Int(i), .. }) if i.base10_digits() == "3") => {
                     // `s.windows(3)`: the iterator is the part of the slice not yet passed
@@ -564,6 +595,7 @@ impl<'a> Tr<'a> {
                 ("is_empty", 0) => Ok(Val { s: format!("(Z.of_nat (length {}) =? 0)", recv.s), ty: Ty::Bool }),
                 _ => Err(unsupported(at, &format!("slice method `{}` (only get(index), len, is_empty and the `get_mut(i).ok_or(e).map(|b| *b = v)` idiom are translated)", name))),
             },
+            Ty::Iter(_) if name == "count" && args.is_empty() => Ok(Val { s: format!("(Z.of_nat (length {}))", recv.s), ty: Ty::int(IntTy::Usize) }),
             Ty::Extern(n) => {
                 let e = self.t.externs.get(&n).cloned().ok_or_else(|| unsupported(at, "unknown extern type"))?;
                 let ty_of = |t: &Ty| if *t == Ty::Extern("Self".into()) { Ty::Extern(n.clone()) } else { t.clone() };
